@@ -90,11 +90,12 @@ def _variant_names(pat):
     return [pat["k"]]
 
 
-def byte_uses(tb, byte_id):
-    """contexts in which the decoder looks at its byte parameter (log/assert macros excluded)"""
+def byte_uses(tb, byte_id, ev=None, local=None):
+    """contexts in which the decoder looks at its byte parameter (log/assert macros excluded); a helper of the decoder
+    (`local(path)`) that gets the byte as an argument is looked into, its uses count for the calling context"""
     found = []
 
-    def rec(i, ctx):
+    def rec(tb, i, ctx, byte_id, depth):
         i, n = tb.e(i)
         if _noise(n):
             return
@@ -104,21 +105,35 @@ def byte_uses(tb, byte_id):
             return
         if k == "If":
             fl = ",".join(_fields_in(tb, n["cond"]))
-            rec(n["cond"], ctx + ("cond[%s]" % fl,))
-            rec(n["then"], ctx + ("then[%s]" % fl,))
+            rec(tb, n["cond"], ctx + ("cond[%s]" % fl,), byte_id, depth)
+            rec(tb, n["then"], ctx + ("then[%s]" % fl,), byte_id, depth)
             if n.get("else") is not None:
-                rec(n["else"], ctx + ("else[%s]" % fl,))
+                rec(tb, n["else"], ctx + ("else[%s]" % fl,), byte_id, depth)
             return
         if k == "Match":
-            rec(n["scrut"], ctx + ("scrutinee",))
+            rec(tb, n["scrut"], ctx + ("scrutinee",), byte_id, depth)
             for a in n["arms"]:
                 arm = tb.arms[a]
-                rec(arm["body"], ctx + ("arm:" + "|".join(_variant_names(arm["pat"])),))
+                rec(tb, arm["body"], ctx + ("arm:" + "|".join(_variant_names(arm["pat"])),), byte_id, depth)
             return
+        if k == "Call" and ev is not None and local is not None and depth < 3:
+            tgt = n.get("res") or n.get("fn") or ""
+            tbc = ev.tb(tgt) if local(tgt) else None
+            if tbc is not None and len(tbc.params) == len(n["args"]):
+                for p_, a_ in zip(tbc.params, n["args"]):
+                    ai, an = tb.e(a_)
+                    if an["k"] in ("Var", "Upvar") and an.get("id") == byte_id and (p_.get("pat") or {}).get("k") == "Bind":
+                        # helper-internal branches keep the caller's context (the rule is about which byte classes are looked at)
+                        n0 = len(found)
+                        rec(tbc, tbc.root, ctx, p_["pat"]["id"], depth + 1)
+                        found[n0:] = [ctx for _ in found[n0:]]
+                    else:
+                        rec(tb, a_, ctx, byte_id, depth)
+                return
         for ch in tb.children(i):
-            rec(ch, ctx)
+            rec(tb, ch, ctx, byte_id, depth)
 
-    rec(tb.root, ())
+    rec(tb, tb.root, (), byte_id, 0)
     return found
 
 
@@ -172,7 +187,7 @@ def r131(ctx, rep, f, ev, cg, reach, O):
     pad_conds = {}
     for b in range(256):
         try:
-            out = ev.collect_ifs(dec, [Sym("self"), Bits.const(b, 8)])
+            out = ev.collect_ifs(dec, [Sym("self"), Bits.const(b, 8)], follow=lambda c: c.startswith(LA))
         except Unsupported as e:
             rep.bad("R13.1", "R13.1|effect|unevaluable", "decode(0x%02X) cannot be evaluated: %s" % (b, e), WL)
             return
@@ -228,7 +243,7 @@ def r131(ctx, rep, f, ev, cg, reach, O):
     if len(tb.params) >= 2:
         pat = tb.params[1].get("pat") or {}
         byte_id = pat.get("id")
-    uses = byte_uses(tb, byte_id) if byte_id is not None else []
+    uses = byte_uses(tb, byte_id, ev, lambda c: c.startswith(LA)) if byte_id is not None else []
     rep.floor("R13.1-byte-uses", len(uses), 6, "non-log uses of the byte parameter in decode()")
     allowed = {
         ("then[next_is_bc]",): "bunch-counter byte",
@@ -915,7 +930,16 @@ def r133(ctx, rep, f, ev, cg, reach, O):
                 ln = tb.e(n["l"])[1]
                 if ln["k"] == "Field" and ln.get("name") == "lane_status_fatal":
                     writers.add(p)
-    rep.check(writers == {LA + "decode"}, "R13.3", "R13.3|fatal|writers", "lane_status_fatal is set only by the decoder (fatal APE classes, see R13.1 effect table)", WL, "writers: %s" % sorted(writers))
+    def _only_from_decode(q, depth=0):
+        # a helper of the decoder: every caller is decode() or another such helper (its writes are then covered by the
+        # per-byte effect table of R13.1, which follows the decoder's helpers)
+        if q == LA + "decode":
+            return True
+        if depth > 3 or not q.startswith(LA):
+            return False
+        cs_ = [c for c, *_ in cg.call_sites(lambda p_: p_ == q) if c in reach]
+        return bool(cs_) and all(_only_from_decode(c, depth + 1) for c in cs_)
+    rep.check(bool(writers) and all(_only_from_decode(w_) for w_ in writers), "R13.3", "R13.3|fatal|writers", "lane_status_fatal is set only by the decoder (fatal APE classes, see R13.1 effect table)", WL, "writers: %s" % sorted(writers))
     try:
         v = vkey(ev.call_fn(LA + "is_fatal_lane", [Sym("an")]))
     except Unsupported as e:
